@@ -1374,6 +1374,8 @@ def _b_hasattr(I, run, args, kwargs, node):
                 return TRUE
             if c.cls and c.cls in I.index.classes:
                 return C(I.class_lookup(run, c.cls, n.v) is not None)
+            if not c.cls and I.cfg.assume_hasattr:
+                return TRUE  # opaque record standing for an external object
     return C(_memo_bool(I, run, ("hasattr", v.key(), n.key()), node, f"hasattr({v!r}, {n!r})"))
 
 
